@@ -5,10 +5,25 @@ import json, subprocess, os
 ALL = ["C%02d" % i for i in range(1, 21)]
 
 # property -> (engine, technique, level text, level note, design ref)
+K_NOTE = "Trusts SQLite atomic commit, the harness's snapshot reader and its attribution of transactions to requests; transports are simulated; sampling bounds in DESIGN.md section 5."
+def K(tech, text, ref):
+    return ("K", "deterministic simulation with fault injection: " + tech, text + " Seeded sampling of schedules, faults and configurations: evidence, not proof.", K_NOTE, ref)
+
 CLAIMED = {
- "C01": ("K", "deterministic simulation with fault injection: table monitor after every commit + observation ledger",
-         "Seeded exploration of interleavings, batchings, failures and crash points on the production kernel over real SQLite; write-once / immutability is checked on every committed transaction and on every promise body that leaves the server. Evidence, not proof.",
-         "Trusts SQLite atomic commit, the harness's snapshot reader and its attribution of transactions to requests.", "DESIGN.md §5 C01"),
+ "C01": K("table monitor after every commit + observation ledger", "Write-once completion and immutable creation fields are checked on every committed transaction (rules T1/T2) and on every promise body that leaves the server (responses, claim payloads, notifications) under concurrent requests, sweeps, failures and crashes.", "DESIGN.md 5 C01"),
+ "C02": K("refinement of every response against a sequential API specification at the request's own commit points", "Every response must equal what the sequential specification gives for some state the request's own store transactions saw or produced and some server clock within the request's interval; every store batch must refine the reference store model.", "DESIGN.md 5 C02, 4.2"),
+ "C03": K("sequential specification of create/complete idempotency + write-once monitor under retries and lost responses", "One promise id per run, retried and duplicated creates/completes with every key/strict/state combination around the timeout, lost responses injected after commit; statuses from the specification, at most one creation/completion by the table monitor.", "DESIGN.md 5 C03"),
+ "C04": K("boundary-biased simulated clock; exact rules on the response clock and on stored rows", "Ticks are placed on and around every stored deadline; no reply may show a promise pending at a response clock >= timeout, no row may time out before its deadline, timed-out rows have the prescribed shape, late completions never install the caller's value.", "DESIGN.md 5 C04"),
+ "C05": K("conversion invariant at the completing transaction + registration acknowledgement rule", "At the transaction that takes a promise out of pending every registration becomes exactly one task and is removed; no registration outlives its promise at any commit; acknowledged registrations are explained by the specification.", "DESIGN.md 5 C05"),
+ "C06": K("crash at every seam including mid-transaction; snapshot equality after restart; atomicity invariants at every commit; graceful stop with the real default configuration", "Crash points are sampled per run (between steps, before/after commit, inside a transaction); the first snapshot after restart must equal the last committed one, atomicity invariants hold at every commit, background work resumes, graceful stop keeps the file.", "DESIGN.md 5 C06"),
+ "C07": K("fencing / lease monitor on every task transition + task specification", "Claims need the current counter on a claimable task; a holder loses its task only after its (timely renewed) lease, the task timeout or promise completion; counters never decrease and rise exactly on reclaim; finished tasks are absorbing.", "DESIGN.md 5 C07"),
+ "C08": K("birth/finish atomicity monitor + per-cycle dispatch rules with the production router and sender worker over simulated transports", "Routed promises are born with their task, completion finishes outstanding tasks in the same transaction, each dispatch cycle obeys the selection rules, tasks are enqueued only after a successful hand-off.", "DESIGN.md 5 C08"),
+ "C09": K("lock lease monitor + lock specification", "Mutual exclusion, release only by the holder, expiry only at or after the (timely renewed) lease end, heartbeats change only leases of the caller's locks.", "DESIGN.md 5 C09"),
+ "C10": K("occurrence oracle (independent cron walk) on every schedule-row transition", "Every change of a schedule row must be the firing of exactly the next occurrence, not before its time, together with that occurrence's promise carrying the schedule's configuration; creation/deletion rules; clock jumps over many occurrences, crashes mid-cycle.", "DESIGN.md 5 C10"),
+ "C11": K("bounded-liveness predicate after a fault-free window whose length is computed from the backlog, swarm over all size knobs", "After clients and faults stop, the server is granted a number of background periods computed from the stored backlog and the batch sizes; afterwards nothing may be overdue and the kernel must be quiescent.", "DESIGN.md 5 C11"),
+ "C12": K("exactly-one-response accounting on the production api/aio queues under tiny queues, subsystem failures and shutdown", "Every submitted request is counted: never two callbacks, exactly one by the end of the run (or lost only to a crash), explicit kernel error codes, graceful shutdown answers everything accepted.", "DESIGN.md 5 C12"),
+ "C14": K("per-page comparison with the state the page's transaction saw + traversal oracle across pages", "Each page must be the newest-first matching set of the state its search transaction saw, with a cursor iff full; a completed traversal must contain every item that matched throughout exactly once, in order; forged cursors are refused.", "DESIGN.md 5 C14"),
+ "C19": K("independent receiver resolution function checked against every hand-off of the production router + sender worker", "For every dispatched task the message must reach the transport and address the statement prescribes, with the body naming that exact task; unresolvable addresses must produce failed, retried hand-offs, never a message.", "DESIGN.md 5 C19"),
 }
 
 def hooks_commits():
